@@ -37,7 +37,7 @@ IMF = {'stop_method': 'fixed', 'max_iters': 1}
 
 ENTRY = ['sift', 'get_next_imf', 'mask_sift', 'get_next_imf_mask', 'ensemble_sift', 'complete_ensemble_sift', 'second_layer',
          'mask_second_layer', 'envelope', 'extrema', 'hht', 'holo', 'freq', 'cycle_vector', 'cycle_stat', 'phase_align', 'bin_by_phase',
-         'add_metric', 'normalise', 'wrap']
+         'add_metric', 'normalise', 'wrap', 'equal_dims']
 
 
 def configs(tier):
@@ -48,6 +48,11 @@ def configs(tier):
             n = 3
         if e in ('phase_align', 'normalise'):
             n = 5
+        if e == 'equal_dims':
+            # the shared shape validator with *symbolic* shapes: 2-3 arrays of 1-2 dimensions, every extent in 1..4
+            for narr, nd, dim in ((2, 1, None), (2, 2, None), (3, 1, None), (3, 1, 0), (2, 2, 0), (3, 2, None)):
+                out.append(('equal_dims-%darr-%dd-dim%s' % (narr, nd, dim), {'entry': e, 'N': 2, 'narr': narr, 'nd': nd, 'dim': dim}))
+            continue
         p = {'entry': e, 'N': n}
         if e in ('complete_ensemble_sift', 'mask_second_layer', 'normalise', 'mask_sift'):
             p['_budget_s'] = 25 if tier == 'quick' else 250
@@ -186,9 +191,46 @@ def equal(h, a, b):
     return True
 
 
+class _Shaped(object):
+    """stands for an array of which only the shape matters (ensure_equal_dims reads .shape and .ndim only)"""
+
+    def __init__(self, shape):
+        self.shape = tuple(shape)
+        self.ndim = len(self.shape)
+
+
+def equal_dims(h, c):
+    from emd import support
+    narr, nd, dim = h.params['narr'], h.params['nd'], h.params['dim']
+    shapes = [[h.int('s%d_%d' % (i, j), lo=1, hi=4) for j in range(nd)] for i in range(narr)]
+    if h.symbolic:
+        arrs = [_Shaped(sh) for sh in shapes]
+    else:
+        arrs = [np.zeros(tuple(int(v) for v in sh)) for sh in shapes]
+    dims = range(nd) if dim is None else [dim]
+    same = all(bool(shapes[i][j] == shapes[0][j]) for i in range(1, narr) for j in dims)
+    h.note('mismatch-tested')
+    try:
+        support.ensure_equal_dims(arrs, ['a%d' % i for i in range(narr)], 'verif', dim=dim)
+        raised = False
+    except ValueError:
+        raised = True
+    except Exception as ex:
+        c.bad('mismatched-lengths-rejected', 'ensure_equal_dims: %s: %s' % (type(ex).__name__, ex))
+        return
+    if raised and same:
+        c.bad('layouts-give-identical-results', 'ensure_equal_dims rejects equal shapes %s' % (shapes,))
+    if not raised and not same:
+        c.bad('mismatched-lengths-rejected', 'ensure_equal_dims accepts shapes %s (dim=%s)' % ([[int(v) for v in sh] for sh in shapes], dim))
+
+
 def harness(h):
     e, N = h.params['entry'], h.params['N']
     c = Case(h)
+    if e == 'equal_dims':
+        equal_dims(h, c)
+        c.finish()
+        return
     h.set_option('sqrt', 'abstract')
     h.set_option('mul', 'abstract')
     x = h.reals('x', N, lo=-8, hi=8)
@@ -242,6 +284,8 @@ def harness(h):
             c.same_results(lambda F, A: spectra.hilberthuang_1d(F, A, edges), [(x.reshape(N, 1), a.reshape(N, 1))])
             c.rejected(lambda F, A: spectra.hilberthuang(F, A, edges), 'mismatched-lengths-rejected', x, a[:-1])
             c.rejected(lambda F, A: spectra.hilberthuang(F, A, edges), 'mismatched-lengths-rejected', x.reshape(N, 1), np.stack([a, a], axis=1))
+            # same element count, transposed: the per-dimension differences cancel
+            c.rejected(lambda F, A: spectra.hilberthuang(F, A, edges), 'mismatched-lengths-rejected', np.stack([x, x], axis=1), np.stack([a, a], axis=0))
         elif e == 'holo':
             f2 = np.asarray(h.reals('f2', N)).reshape(N, 1, 1)
             a2 = np.asarray(h.reals('a2', N)).reshape(N, 1, 1)
@@ -280,6 +324,8 @@ def harness(h):
             ph = np.asarray(h.reals('p', N, lo=0, hi=TWO_PI, hi_open=True))
             c.same_results(lambda P, V: CY.bin_by_phase(P, V, nbins=2)[0], [(ph, x), (ph.reshape(N, 1), x)])
             c.rejected(lambda P, V: CY.bin_by_phase(P, V, nbins=2), 'mismatched-lengths-rejected', ph, x[:-1])
+            # three arrays whose length errors cancel (N, N+1, N-1)
+            c.rejected(lambda P, V, W: CY.bin_by_phase(P, V, nbins=2, weights=W), 'mismatched-lengths-rejected', ph, np.concatenate([x, x[:1]]), np.ones(N - 1))
         elif e == 'add_metric':
             ph = np.asarray(h.reals('p', N, lo=0, hi=TWO_PI, hi_open=True))
             h.assume(ph[0] - ph[1] > 1.5 * math.pi)
